@@ -41,6 +41,10 @@ type rRound struct {
 	// Slow: the packets of the response arrive spread over 8 simulated seconds (longer than the packet read
 	// timeout of 5 s in total, shorter than the consumer's own deadline).
 	Slow bool `json:"slow,omitempty"`
+	// NoPause (C03 plans): the next request is sent as soon as the consumer has the final DONE, while the reader
+	// may still be busy with the end of this response (its last packet's bookkeeping, invisible packages after
+	// the final DONE).
+	NoPause bool `json:"no_pause,omitempty"`
 	// Truncated (last round only, mode until-err, abort at the first callback): the response's last packet never
 	// arrives, so the drain after the failing callback ends with the consumer's deadline. The returned error
 	// must still match the callback's error and carry this response's messages.
@@ -253,6 +257,7 @@ func genRounds(r *Rand, nRounds int, eedPct, envPct int, hooks bool) []rRound {
 		rd.Poll = rd.Mode != "manual" && r.Pct(25)
 		rd.ErrEOF = rd.Mode == "until-err" && r.Pct(30)
 		rd.Slow = !rd.Poll && r.Pct(8)
+		rd.NoPause = !hooks && !rd.Slow && !rd.Poll && r.Pct(50)
 		if hooks {
 			if ri == 0 {
 				rd.EEDHooks, rd.EnvHooks = r.Intn(3), r.Intn(3)
@@ -562,7 +567,9 @@ func runRounds(p *roundsPlan, schedSeed uint64, replay []simrt.Choice, lenient, 
 			}
 			// let the reader finish whatever invisible packages trail the final DONE before looking at the
 			// connection state and before registering further hooks ("registered at that time" would be ambiguous)
-			simrt.Sleep(time.Millisecond)
+			if !rd.NoPause || ri == len(p.Rounds)-1 {
+				simrt.Sleep(time.Millisecond)
+			}
 			if rd.Poll {
 				// the packets of this response were sent a millisecond apart: wait until the last one is in
 				simrt.Sleep(time.Duration(len(rd.Cuts)+2) * time.Millisecond)
@@ -769,9 +776,15 @@ func (c03) Run(plan interface{}, schedSeed uint64, replay []simrt.Choice, lenien
 	if len(p.Rounds) >= 2 {
 		v.Nontrivial = key
 	}
-	for _, rd := range p.Rounds {
+	for ri, rd := range p.Rounds {
 		v.Probe("mode:" + rd.Mode)
 		v.Probe("end:" + endOf(rd.Items))
+		if rd.NoPause && ri < len(p.Rounds)-1 {
+			v.Probe("next-request-without-pause")
+		}
+		if rd.Slow {
+			v.Probe("slow-response")
+		}
 	}
 	v.Sample = roundsSample(p)
 	return v, out
